@@ -11,6 +11,7 @@ From M Require ArrayReaders.
 From M Require ExprScenario.
 From M Require Tie.
 From M Require LexTok.
+From M Require ParamBounds.
 From M Require Dispatch.
 From M Require ExprModel.
 From M Require Framing2.
@@ -280,4 +281,29 @@ Theorem C01_data_inside_unit :
 Proof. exact (@LexTok.data_inside_unit). Qed.
 End T_data_inside_unit.
 Definition C01_data_inside_unit := @T_data_inside_unit.C01_data_inside_unit.
+
+Module T_parameter_window. Import ParamBounds. Local Open Scope bool_scope. Local Open Scope Z_scope.
+Import ParserModel. Local Open Scope Z_scope.
+Theorem C01_parameter_window :
+  forall c m,
+  window_ok c ->
+  window_ok (fst (fst (parameter c m))) /\
+  (snd (fst (parameter c m)) = true ->
+   let t := snd (parameter c m) in
+   pd_off c <= LexModel.ptr t /\ 0 <= LexModel.len t /\ LexModel.ptr t + LexModel.len t <= pd_off c + pd_len c).
+Proof. exact (@ParamBounds.parameter_window). Qed.
+End T_parameter_window.
+Definition C01_parameter_window := @T_parameter_window.C01_parameter_window.
+
+Module T_unit_window. Import ParamBounds. Local Open Scope bool_scope. Local Open Scope Z_scope.
+Import ParserModel. Local Open Scope Z_scope.
+Theorem C01_unit_window :
+  forall c e off len hp hl,
+  0 <= off -> 0 <= len -> off + len <= Z.of_nat (length (mem c)) ->
+  let d := LexModel.u_data (LexModel.detect_unit (slice (mem c) off len)) in
+  window_ok (upd_unit c e (off + LexModel.ptr d) (LexModel.len d) hp hl) /\
+  off <= off + LexModel.ptr d /\ off + LexModel.ptr d + LexModel.len d <= off + len.
+Proof. exact (@ParamBounds.unit_window). Qed.
+End T_unit_window.
+Definition C01_unit_window := @T_unit_window.C01_unit_window.
 
